@@ -233,6 +233,12 @@ func c07OracleOpt(c *Ctx, in sx.V, out sx.V, withAlloc bool) {
 	if withAlloc {
 		c07AllocOracle(c, in)
 	}
+	// the caller's buffer / second parse / other entry points: every input
+	// that parses, and (quick tier) one rejected input in four
+	c07as.errN++
+	if !isAtom(out, "err") || c.Thorough() || c07as.errN%4 == 0 {
+		c07AliasOracle(c, in)
+	}
 	if !isAtom(out, "err") {
 		c07PrintOracle(c, in, &c07st.printHangs)
 		c07HashOracleH(c, in, 0, &c07hs.genericHangs)
@@ -380,7 +386,7 @@ func c07DumpStats() {
 			"print calls %d, max lines %d, max printed bytes %d, max (ToBoc len - input len) %d, max print call %d ms\n"+
 			"hangs: alloc %d, print %d\n",
 		s.nAlloc, slope, s.maxSlopeNum, s.maxSlopeLen, s.maxSmall, s.maxAllocMs,
-		s.nPrint, s.maxLines, s.maxPrintBytes, s.maxReserExcess, s.maxPrintMs, s.allocHangs, s.printHangs+s.shareHangs)+c07HashStatsString()+c07SpentString()), 0o644)
+		s.nPrint, s.maxLines, s.maxPrintBytes, s.maxReserExcess, s.maxPrintMs, s.allocHangs, s.printHangs+s.shareHangs)+c07HashStatsString()+c07AliasStatsString()+c07SpentString()), 0o644)
 }
 
 // ---------------------------------------------------------------------------
